@@ -280,6 +280,86 @@ def _impl_preds(F, b):
     return []
 
 
+def check_cdf_differences_wrap(ctx, F):
+    """The last entry of every categorical cdf is the total mass 1 << PRECISION, stored as 0 when PRECISION equals the
+    width of Probability.  A probability is a difference of two cdf entries, so it must be a *wrapping* difference: a
+    plain `-` overflows for the last symbol at full precision (a panic in checked builds, reachable by decoding)."""
+    is_cdf = lambda y: sym.contains(y, lambda z: isinstance(z, tuple) and z and z[0] == 'in' and any(isinstance(q, tuple) and q[0] == 'f' and q[1] == 'cdf' for q in z[1]))
+    n = 0
+    for b in F.bodies:
+        if b.promoted is not None or '::tests::' in b.defpath or 'model::categorical' not in b.defpath or b.dk not in ('Fn', 'AssocFn', 'Closure'):
+            continue
+        try:
+            ev, paths = rules.evaluate(b)
+        except sym.TooManyPaths:
+            continue
+        ops = set()
+        for r in paths or []:
+            terms = [t for t, v, _ in r.preds] + ([r.ret] if r.ret is not None else []) + [e['result'] for e in r.events if e['kind'] == 'call']
+            for t in terms:
+                for x in sym.subterms(t):
+                    if isinstance(x, tuple) and x and x[0] == 'bin' and x[1].split('.')[0] == 'Sub' and is_cdf(x[2]) and is_cdf(x[3]):
+                        ops.add(x[1])
+        if not ops:
+            continue
+        n += 1
+        ctx.touch(b)
+        key = 'R2/cdf-difference-wraps/' + b.defpath
+        role = 'a probability computed as the difference of two cdf entries uses wrapping subtraction'
+        if ops <= {'Sub.w'}:
+            ctx.ok('R2', role, b.defpath, 'wrapping_sub', key=key)
+        else:
+            ctx.bad('R2', role, b.defpath, 'two cdf entries are subtracted with a plain `-`: with PRECISION == Probability::BITS the final entry 1 << PRECISION is stored as 0, so the last symbol\'s probability is `0 - left`, '
+                    'which overflows (a panic when decoding a quantile in the last bin)', key=key, loc=rules.loc(b))
+    if n < 4:
+        ctx.unresolved('R2', 'a probability computed as the difference of two cdf entries uses wrapping subtraction', 'stream::model::categorical', 'only %d functions with a cdf difference found (5 confirmed by reading)' % n, key='R2/cdf-difference-wraps/floor')
+
+
+def check_ctor_panic_free(ctx, F):
+    """Constructing a decoder over arbitrary words never panics: the public constructors of the three decoders that take a
+    data source have no panicking path whose condition depends on the data, and do not unwrap / expect / mark unreachable a
+    value computed from it (errors about the data are returned).  Compile-time assertions (conditions over constants only)
+    do not count."""
+    ADTS = ('stream::stack::AnsCoder', 'stream::queue::RangeDecoder', 'stream::chain::ChainCoder')
+    n = 0
+    for b in F.bodies:
+        if b.promoted is not None or b.dk != 'AssocFn' or b.self_adt not in ADTS or b.vis != 'pub' or b.impl_trait is not None or '::tests::' in b.defpath:
+            continue
+        if not (b.name.startswith(('from_', 'with_backend', 'for_compressed')) and b.arg_count >= 1):
+            continue
+        if b.name.startswith('from_raw_parts'):
+            continue          # raw parts are validated and rejected with Err (checked by the threshold / distance rules)
+        try:
+            ev, paths = rules.evaluate(b)
+        except sym.TooManyPaths:
+            continue
+        if not paths:
+            continue
+        n += 1
+        ctx.touch(b)
+        key = 'R2/ctor-panic-free/' + b.defpath
+        role = 'constructing a decoder over arbitrary words cannot panic'
+        data_dep = lambda t: sym.contains(t, lambda x: isinstance(x, tuple) and x and (x[0] == 'arg' or (x[0] == 'call' and str(x[1]).endswith(('ReadWords::read', 'FnMut::call_mut'))) or x[0] in ('post', 'loop')))
+        bad = None
+        for r in paths:
+            if r.end == 'diverge':
+                dd = [t for t, v, _ in r.preds if data_dep(t)]
+                if dd:
+                    bad = 'a panicking path is taken depending on the data (%s)' % sym.show(dd[-1])[:100]
+            for e in r.events:
+                if e['kind'] == 'call' and e['callee'].endswith(('::unwrap', '::expect', 'unreachable_unchecked')) and e['args'] and data_dep(e['args'][0]) \
+                        and not e['callee'].endswith('unwrap_infallible'):
+                    # unwrapping the Ok of a call that cannot fail for type reasons is fine; anything computed from the data is not
+                    bad = '%s is applied to a value computed from the data (%s)' % (e['callee'].rsplit('::', 1)[-1], sym.show(e['args'][0])[:90])
+        if bad:
+            ctx.bad('R2', role, b.defpath, bad + ': some word sequences make the constructor panic instead of returning a decoder (whose first decode would report invalid data) or an error', key=key, loc=rules.loc(b))
+        else:
+            ctx.ok('R2', role, b.defpath, '%d paths: no data-dependent panic, unwrap or expect' % len(paths), key=key)
+    ctx.extra['decoder_constructors'] = n
+    if n < 8:
+        ctx.unresolved('R2', 'constructing a decoder over arbitrary words cannot panic', 'stream', 'only %d public constructors found' % n, key='R2/ctor-panic-free/floor')
+
+
 def check_sign_safe_doubling(ctx, F):
     """A search step that is doubled under the overflow guard `step << 1 != 0` stays positive only for unsigned types: for
     a signed type 2^(N-2) << 1 is -2^(N-1), non-zero and negative, and a negative step defeats the wrap check of the search
@@ -422,6 +502,8 @@ def run(ctx):
     check_coders(ctx, F)
     check_wrapping_search_steps(ctx, F)
     check_sign_safe_doubling(ctx, F)
+    check_cdf_differences_wrap(ctx, F)
+    check_ctor_panic_free(ctx, F)
     check_models(ctx, F)
     check_state_ctor_threshold(ctx, F)
     import props.C05 as c05
